@@ -1032,7 +1032,7 @@ def run(c):
     else:
         ok_final = [h for h in base_dir if dc.Workspace.from_json(h["steps"][-1]).deployable() and not h.get("tamper") and not h.get("legacy_symlinks")]
         variants = [("same_process", hh) for h in ok_final for hh in ([h] + ([dict(h, steps=h["steps"][:1], edits=h["edits"][:1])] if "override:" in h["directed"] else []))] + [(m, h) for m in ("prebuilt", "prebuild", "piecewise", "verbose") for h in ok_final
-                    if not (m in ("prebuild", "piecewise") and ("user cop" in h["directed"] or "multi-part" in h["directed"]))]
+                    if not (m in ("prebuild", "piecewise", "verbose") and ("user cop" in h["directed"] or "multi-part" in h["directed"]))]
     for i, (mode, hist) in enumerate(variants):
         h2 = dict(hist, variant=mode)
         res = run_history(c, runner, h2, c.work, have_hooks, "var%d" % i)
